@@ -429,6 +429,7 @@ package exec
 //@ spec func pipeLink(a, b bigslice.Slice) bool = slNumDep(a) == 1 && !slDep(a, 0).Shuffle && b == slDep(a, 0).Slice && !materializes(b)
 
 //@ func exec.pipeline (slice) (slices)
+//@   flag deterministic
 //@   requires slice != nil
 //@   ensures  stops-at-result: forall(i, 0, len(slices), !isResultSlice(slices[i]))
 //@   ensures  head: implies(len(slices) > 0, slices[0] == arg0)
@@ -447,23 +448,28 @@ package exec
 //@ spec func partN(n int) int = ite(n == 0, 1, n)
 
 //@ func exec.partitioner.IsShuffle
+//@   flag deterministic
 //@   ensures result == (p.numPartition != 0)
 //@   modifies nothing
 //@ func exec.partitioner.NumPartition
+//@   flag deterministic
 //@   ensures result == partN(p.numPartition)
 //@   modifies nothing
 //@ func exec.partitioner.Partitioner
+//@   flag deterministic
 //@   ensures implies(p.partitioner != nil, result == p.partitioner) && result != nil
 //@   ensures default: implies(p.partitioner == nil, result == defaultPartitioner)
 //@   modifies nothing
 
 //@ func exec.CompileEnv.MarkCached (n, opIdx)
+//@   flag deterministic
 //@   requires e.Cached != nil
 //@   panics_if !e.Writable
 //@   ensures marked: has(e.Cached, taskOp{n, opIdx}) && e.Cached[taskOp{n, opIdx}]
 //@   ensures others-kept: forall(k, taskOp, implies(k != taskOp{n, opIdx}, has(e.Cached, k) == old(has(e.Cached, k)) && e.Cached[k] == old(e.Cached[k])))
 //@   modifies e.Cached[:]
 //@ func exec.CompileEnv.IsCached (n, opIdx)
+//@   flag deterministic
 //@   ensures result == e.Cached[taskOp{n, opIdx}]
 //@   modifies nothing
 //@ func exec.(*CompileEnv).Freeze
@@ -471,10 +477,12 @@ package exec
 //@   ensures !e.Writable && e.Cached == old(e.Cached)
 //@   modifies e.Writable
 //@ func exec.CompileEnv.IsWritable
+//@   flag deterministic
 //@   ensures result == e.Writable
 //@   modifies nothing
 
 //@ func exec.taskNamer.New (name)
+//@   flag deterministic
 //@   requires n != nil
 //@   ensures counted: n[name] == old(n[name]) + 1
 //@   ensures others-kept: forall(k, string, implies(k != name, has(n, k) == old(has(n, k)) && n[k] == old(n[k])))
@@ -500,6 +508,12 @@ package exec
 //@ spec func slCacheOf(s bigslice.Slice) slicecache.ShardCache = ite(hastype(slUnwrap(s), slicecache.Cacheable), cacheOf(slUnwrap(s)), slicecache.Empty)
 //@ spec func opCached(c *compiler, n TaskName, lo int, hi int) bool = exists(k, lo, hi, c.inv.Env.Cached[taskOp{n, k}])
 
+// Determinism (same graph in every process): the compile path is flagged deterministic — no map iteration, goroutine,
+// select, channel, clock or mutable global is reachable in it, and every callee is deterministic by its own contract.
+// Two exceptions are allowed in (*compiler).compile: slicecache.Empty (a package-level value that is never
+// assigned) and ShardCache.IsCached, which reflects the file system of the process that built the slice; it is only
+// consulted when the environment is writable (driver) and its result flows only into CompileEnv.Cached (obligations
+// marks and the frame), which is the value shipped to workers.
 // The memo is keyed by the slice itself (not what it wraps) and by the partition count as configured (0 = not a
 // shuffle): a compiled task set is reused only for exactly that use. Every task set handed out for a slice that is
 // not a reused result has one task per shard, each writing partN(numPartition) partitions of the slice's own type;
@@ -508,6 +522,8 @@ package exec
 //@ spec func depsFresh(ts []*Task) bool = forall(j, 0, len(ts), ts[j].Deps == nil || fresh(ts[j].Deps.arr))
 //@ spec func memoGrown(c *compiler) bool = forall(k, memoKey, implies(old(has(c.memo, k)), has(c.memo, k) && sameTasks(c.memo[k], old(c.memo[k]))))
 //@ func exec.(*compiler).compile (slice, part) (tasks, err)
+//@   flag deterministic
+//@   flag det_allow slicecache.ShardCache.IsCached, slicecache.Empty
 //@   requires c != nil && slice != nil && c.memo != nil && c.namer != nil && c.inv.Env.Cached != nil && part.numPartition >= 0
 //@   requires memo-ok: memoOK(c)
 //@   may_panic
@@ -547,6 +563,7 @@ package exec
 
 // One root task per result shard, each writing a single partition (roots are never direct shuffle dependencies).
 //@ func exec.compile (inv, slice, machineCombiners) (tasks, err)
+//@   flag deterministic
 //@   requires slice != nil && inv.Env.Cached != nil
 //@   may_panic
 //@   ensures  tasks-or-error: implies(err != nil, len(tasks) == 0)
